@@ -2,7 +2,7 @@
    One theorem per reference operator: the set denoted by the reference result is the documented set.
    [fresh n s]: the system does not mention coordinate n (n = space dimension: used as scratch). *)
 From Coq Require Import List ZArith QArith.
-Require Import PPLV.Base.FM PPLV.Base.Sys PPLV.Base.Gens PPLV.Poly.PolyOps PPLV.Poly.GensLeast PPLV.Poly.PolyGenOps PPLV.Poly.PolyOpsLhs PPLV.Poly.PosTimeElapse PPLV.Poly.PolyDiff.
+Require Import PPLV.Base.FM PPLV.Base.Sys PPLV.Base.Gens PPLV.Poly.PolyOps PPLV.Poly.GensLeast PPLV.Poly.PolyGenOps PPLV.Poly.PolyOpsLhs PPLV.Poly.PosTimeElapse PPLV.Poly.PolyDiff PPLV.Poly.Simplify.
 Import ListNotations.
 Local Open Scope Q_scope.
 
@@ -192,6 +192,17 @@ Proof. exact difference_closed_least. Qed.
 Theorem C02_difference_empty : forall x y,
   (forall s, In s (diff_pieces x y) -> ~ exists q, sat_sys s q) -> forall p, sat_sys x p -> sat_sys y p.
 Proof. exact difference_empty. Qed.
+
+(* simplify_using_context_assign: what the judge decides is exactly "meet-preserving enlargement", and the flag *)
+Theorem C02_simplify_using_context : forall n x y r b,
+  suc_check n x y r = Some b -> (b = true <-> meet_preserving_enlargement x y r).
+Proof. exact suc_check_exact. Qed.
+Theorem C02_simplify_using_context_meet : forall x y r,
+  meet_preserving_enlargement x y r -> forall p, sat_sys (union_sys r y) p <-> sat_sys (union_sys x y) p.
+Proof. exact enlargement_meet. Qed.
+Theorem C02_simplify_using_context_flag : forall n x y b,
+  suc_flag n x y = Some b -> (b = true <-> exists p, sat_sys x p /\ sat_sys y p).
+Proof. exact suc_flag_exact. Qed.
 
 (* poly_hull_assign_if_exact: with h the hull, the Boolean is true exactly when the union is already convex *)
 Theorem C02_hull_if_exact_flag : forall n h p q b,
